@@ -130,11 +130,12 @@ impl ObjectTransmissionInformation {
         // See section 4.4.1.2. "These parameters MUST be set so that ceil(ceil(F/T)/Z) <= K'_max."
 
         if (symbol_size != 0) && (source_blocks != 0) {
-            let symbols_required = int_div_ceil(
-                int_div_ceil(transfer_length, symbol_size as u64) as u64,
-                source_blocks as u64,
-            );
-            assert!((symbols_required) <= MAX_SOURCE_SYMBOLS_PER_BLOCK);
+            // Computed in u64: int_div_ceil() narrows to u32, which would let e.g. F = 2^32 + 5,
+            // T = 1 through
+            let symbols_required = transfer_length
+                .div_ceil(symbol_size as u64)
+                .div_ceil(source_blocks as u64);
+            assert!(symbols_required <= MAX_SOURCE_SYMBOLS_PER_BLOCK as u64);
         }
 
         ObjectTransmissionInformation {
